@@ -164,6 +164,7 @@ ASMJIT_FAVOR_SIZE Error BaseEmitHelper::emit_args_assignment(const FuncFrame& fr
 
       ASMJIT_ASSERT(cur.is_reg() || cur.is_stack());
       Reg reg;
+      TypeId reg_type_id = cur.type_id();
 
       BaseMem dst_stack_ptr = base_stack_ptr.clone_adjusted(out.stack_offset());
       BaseMem src_stack_ptr = base_arg_ptr.clone_adjusted(cur.stack_offset());
@@ -203,7 +204,15 @@ ASMJIT_FAVOR_SIZE Error BaseEmitHelper::emit_args_assignment(const FuncFrame& fr
         uint32_t available_id = Support::ctz(available_regs);
         reg.set_signature_and_id(signature, available_id);
 
-        ASMJIT_PROPAGATE(emit_arg_move(reg, out.type_id(), src_stack_ptr, cur.type_id()));
+        // Only integers can be converted (sign or zero extended) when moved through a GP register, everything
+        // else that fits (float, double, ...) is copied as is - as an integer having the size of the register.
+        TypeId out_type_id = out.type_id();
+        if (signature.reg_group() == RegGroup::kGp && !(TypeUtils::is_int(out_type_id) && TypeUtils::is_int(reg_type_id))) {
+          reg_type_id = signature.reg_type() == RegType::kGp32 ? TypeId::kUInt32 : TypeId::kUInt64;
+          out_type_id = reg_type_id;
+        }
+
+        ASMJIT_PROPAGATE(emit_arg_move(reg, out_type_id, src_stack_ptr, reg_type_id));
       }
 
       if (cur.is_indirect() && cur.is_reg()) {
@@ -211,7 +220,7 @@ ASMJIT_FAVOR_SIZE Error BaseEmitHelper::emit_args_assignment(const FuncFrame& fr
       }
 
       // Register to stack move.
-      ASMJIT_PROPAGATE(emit_reg_move(dst_stack_ptr, reg, cur.type_id()));
+      ASMJIT_PROPAGATE(emit_reg_move(dst_stack_ptr, reg, reg_type_id));
       var.mark_done();
     }
   }
